@@ -615,6 +615,23 @@ func runRoundTrip(c *fw.Case, idx int) {
 			c.Violation("C10/fill/flush-error", "Flush of a partial store failed on accepted input: "+err.Error(), map[string]any{"ops": clip(ops), "key_family": family})
 			return
 		}
+		if c.R.Intn(6) == 0 {
+			// a segment that ends by wiping what it wrote (or only deleted): no key left, the deleted prefixes are all it carries
+			p := ""
+			if c.R.Intn(2) == 0 && len(g.pool) > 0 && len(m.kv) == 0 {
+				p = g.pool[0]
+			}
+			part.DeletePrefix(1<<40, p)
+			m.deletePrefix(p, true)
+			ops = append(ops, op{"delete_prefix", p, nil, 1 << 40})
+			if err := part.Flush(); err != nil {
+				c.Violation("C10/fill/flush-error", "Flush of a partial store failed on accepted input: "+err.Error(), map[string]any{"ops": clip(ops), "key_family": family})
+				return
+			}
+			if len(m.kv) == 0 {
+				c.Count("partial_stores_with_deleted_prefixes_and_no_key", 1)
+			}
+		}
 		w := &rtWitness{Kind: "partial", Backend: be.Name, KeyFamily: family, Fill: "set+flush", Range: []uint64{pStart, end}, Entries: len(m.kv), Ops: clip(ops), OpsTotal: len(ops), ExpectedPfx: m.prefixes}
 		if !sameContent(content(part), m.kv) || !sameList(part.DeletedPrefixes, m.prefixes) {
 			c.Violation("C10/fill/model-mismatch", fmt.Sprintf("the partial store does not hold what was written into it (before any save); deleted prefixes %q", part.DeletedPrefixes), w)
